@@ -6,7 +6,8 @@ units this engine contributes (unit ids are unique and start with `c.`); [] for 
     C11  src/raw_ctr.c (increments, counter blocks, start_operation limits, CTR_encrypt position/limit logic),
          src/chacha20.c (init, core counter + ERR_MAX_DATA, seek over the integers, encrypt buffering)
     C02  src/chacha20.c:chacha20_core == RFC 8439 block function; src/raw_ocb.c L table (when registered)
-    C09  in-place == out-of-place configurations of CTR_encrypt / chacha20_encrypt (aliasing configurations)
+    C09  in-place == out-of-place configurations of CTR_encrypt / chacha20_encrypt / CBC_encrypt / CBC_decrypt
+    C12  <HASH>_pbkdf2_hmac_assist (SHA-224/256/384/512, SHA-1, MD5): T = U_1 xor ... xor U_c over all digest bytes
     C17  memory-safety obligations of all of the above + whole-library scans alloc_checked / const_index
     C19  whole-library scan static_const
 """
@@ -19,7 +20,11 @@ MODULES = {
     'raw_ctr': 'contracts.c.raw_ctr',
     'chacha20': 'contracts.c.chacha20',
     'raw_ocb': 'contracts.c.raw_ocb',
+    'raw_cbc': 'contracts.c.raw_cbc',
 }
+PBKDF2 = ['contracts.c.pbkdf2_sha224', 'contracts.c.pbkdf2_sha256', 'contracts.c.pbkdf2_sha384', 'contracts.c.pbkdf2_sha512',
+          'contracts.c.pbkdf2_sha1', 'contracts.c.pbkdf2_md5']
+CBC_FUNCS = ['CBC_start_operation', 'CBC_encrypt', 'CBC_decrypt']
 SCAN_CHUNKS = 8
 
 
@@ -53,13 +58,21 @@ def units(prop, tier):
         us += U.c_units(prop, MODULES['chacha20'], ['chacha20_core'], kinds='functional')
         if _have(MODULES['raw_ocb']):
             us += U.c_units(prop, MODULES['raw_ocb'], ['double_L', 'ntz', 'OCB_start_operation'], kinds='functional')
+        us += U.c_units(prop, MODULES['raw_cbc'], CBC_FUNCS, kinds='functional', config_filter=lambda c: 'inplace' not in c)
     elif prop == 'C09':
         us += U.c_units(prop, MODULES['raw_ctr'], ['CTR_encrypt'], kinds='functional')
         us += U.c_units(prop, MODULES['chacha20'], ['chacha20_encrypt'], kinds='functional')
+        # CBC: in-place == out-of-place, chaining value for the next call (segmentation)
+        us += U.c_units(prop, MODULES['raw_cbc'], ['CBC_encrypt', 'CBC_decrypt'], kinds='functional')
+    elif prop == 'C12':
+        for m in PBKDF2:
+            us += U.c_units(prop, m, kinds='functional')
     elif prop == 'C17':
-        for m in ('pkcs1_decode', 'raw_ctr', 'chacha20', 'raw_ocb'):
+        for m in ('pkcs1_decode', 'raw_ctr', 'chacha20', 'raw_ocb', 'raw_cbc'):
             if _have(MODULES[m]):
                 us += U.c_units(prop, MODULES[m], kinds='safety')
+        for m in PBKDF2:
+            us += U.c_units(prop, m, kinds='safety')
         us += U.scan_units(prop, 'alloc_checked', SCAN_CHUNKS)
         us += U.scan_units(prop, 'const_index', SCAN_CHUNKS)
     elif prop == 'C19':
